@@ -47,6 +47,15 @@ func c08Map(r *core.Rand, size, depth int) *ordered.MapSA {
 		}
 		m.Set(k, v)
 	}
+	if depth >= 0 && r.Intn(4) == 0 && m.Len() > 0 {
+		// the same map through the other constructor, from an item list that repeats its first keys
+		var items, prefix []ordered.TupleSA
+		m.Range(func(k string, v any) error { items = append(items, ordered.TupleSA{Key: k, Value: v}); return nil })
+		for i := 0; i < 1+r.Intn(len(items)); i++ {
+			prefix = append(prefix, ordered.TupleSA{Key: items[i].Key, Value: "overwritten"})
+		}
+		return ordered.MapFromItems(append(prefix, items...)...)
+	}
 	return m
 }
 
